@@ -54,7 +54,7 @@ pub fn run_grid(run: &Run, tier: Tier, profile: &str, shard: usize, nshards: usi
   let finals = final_ops(thorough);
   let pre = prefix_alphabet();
   let depth = if thorough { 3 } else { 2 };
-  let or = O_ERRSTATE | O_SHADOW | O_CAPALIGN | O_FREELIST | O_ZERO;
+  let or = O_ERRSTATE | O_SHADOW | O_CAPALIGN | O_FREELIST | O_ZERO | O_BOUNDS;
   let mut cells = crate::props_hist::cells(&[(Backend::Vec, false), (Backend::Vec, true), (Backend::Anon, true), (Backend::File, true)], 225, 256);
   if thorough {
     for fl in Fl::ALL {
